@@ -430,13 +430,23 @@ class Sim:
             Ud = self.cands[c][0].U().conj().T
             ap = self.nq.sim.clifford.apply_clifford_on_pauli
             for _ in range(2):
-                L = dp.kron_all([np.linalg.matrix_power(dp.S, lr.randrange(4)) @ np.linalg.matrix_power(dp.H, lr.randrange(2)) for _ in range(n)])
+                real_layer = lr.random() < 0.5
+                L = dp.kron_all([np.linalg.matrix_power(dp.S, (2 * lr.randrange(2)) if real_layer else lr.randrange(4)) @ np.linalg.matrix_power(dp.H, lr.randrange(2)) for _ in range(n)])
                 V = L @ Ud
                 try:
                     r3, S3 = self.nq.sim.clifford.clifford_array_to_F2(V)
                     imgs = [ap(np.array(g, dtype=np.uint8), r3, S3) for g in dp.generators(n)]
                 except Exception as e:
                     raise Violation('from_unitary', 'clifford_array_to_F2', f'{type(e).__name__}: {e} on a Clifford unitary of {n} qubits')
+                if float(np.abs(V.imag).max()) < 1e-12:
+                    # a real Clifford unitary handed over as a float64 array is the same unitary
+                    try:
+                        r4, S4 = self.nq.sim.clifford.clifford_array_to_F2(np.ascontiguousarray(V.real))
+                    except Exception as e:
+                        raise Violation('from_unitary', 'clifford_array_to_F2', f'{type(e).__name__}: {e} on a real (float64) Clifford unitary of {n} qubits')
+                    if not (np.array_equal(r4, r3) and np.array_equal(S4, S3)):
+                        raise Violation('from_unitary', 'clifford_array_to_F2', f'a real {n}-qubit Clifford unitary converts to a different (r,S) as float64 than as complex128')
+                    self.bump('real_dtype_unitary_conversions')
                 for g, out in zip(dp.generators(n), imgs):
                     if not _close(dp.pauli_matrix(out), V @ dp.pauli_matrix(g) @ V.conj().T):
                         raise Violation('from_unitary', 'clifford_array_to_F2', f'(r,S) extracted from a {n}-qubit Clifford unitary V maps P={g} to {out.tolist()}, which is not V P V^dagger')
